@@ -194,7 +194,7 @@ def kind_of(d):
 
 
 def scenario_kinds(rng, n):
-    return [rng.choice([None, None, None, 'passout', 'short', 'zero', 'all13']) for _ in range(n)]
+    return [rng.choice([None, None, None, 'passout', 'short', 'zero', 'all13'] + (['mirror', 'mirror'] if i else [])) for i in range(n)]
 
 
 def campaign(ctx, want, n_sessions, boards_choices=(1, 1, 2, 2, 3), policies_per_scenario=2, fixed_first=True,
@@ -213,6 +213,9 @@ def campaign(ctx, want, n_sessions, boards_choices=(1, 1, 2, 2, 3), policies_per
         if fixed_first and idx == 0 and ctx.shard == 1 % max(1, ctx.nshards):
             # a played board on which declarer's side wins NO trick, then a passed-out one, then all thirteen tricks
             sc = session.gen_scenario(random.Random(f'extremes/{ctx.seed}'), 3, fancy=True, kinds=['zero', 'passout', 'all13'])
+        if fixed_first and idx == 1 and ctx.shard == 0:
+            # the same contract and the same tricks declared first by one side, then by the other, one side vulnerable
+            sc = session.gen_scenario(random.Random(f'mirror/{ctx.seed}'), 2, fancy=True, kinds=[None, 'mirror'])
         idx += 1
         model = None
         logs = []
